@@ -13,7 +13,7 @@ CLAIMED = {
     "C02": (
         "proptest-generated full-node simulations (Alpenglow::new + run over a harness byte-level network, paused clock) with bounded-progress oracle and an observed-assumption guard",
         "Generated-input search over stakes, crash / Byzantine sets, Rotor / Turbine, pre-stabilisation delay chaos, post-stabilisation hop delays and a slow shred receiver; bounded liveness in virtual time, skip / finalisation certificates read off the wire, fast-finalisation clause for homogeneous delays.",
-        "liveness as a bound derived from the code's constants; no message loss; std::time-based paths see no elapsed time; windows whose Rotor assumption (>= 32 live relays per slice) failed are excluded and counted",
+        "liveness as a bound derived from the code's constants; no message loss; all node timers run on the paused clock (clock hook); windows whose Rotor assumption (>= 32 live relays per slice) failed are excluded and counted",
         "DESIGN.md §5 C02",
     ),
     "C05": (
@@ -166,7 +166,7 @@ def main():
             "name": "verif-engine",
             "path": "/verif/harness",
             "serves_properties": sorted(CLAIMED),
-            "kind_free_text": "Rust binary: proptest TestRunner campaigns (fixed work, 16 workers, seeded from VERIF_SEED) with per-property generators, explicit oracles (reference models, differential, round-trip, history invariants), shrinking to replay JSON, known-findings protocol; libFuzzer targets under /verif/fuzz for byte-level surfaces (thorough tier)",
+            "kind_free_text": "Rust binary: proptest TestRunner campaigns (fixed work, 16 workers, seeded from VERIF_SEED) with per-property generators, explicit oracles (reference models, differential, round-trip, history invariants), shrinking to replay JSON, known-findings protocol; in the thorough tier of thirteen properties additionally a coverage-guided libFuzzer campaign (/verif/fuzz, one generic target: the fuzzer's bytes are the random stream of the property's own generator, the oracle is the property's own; 16 processes, fixed executions)",
         }],
         "checks": checks,
         "not_applicable": na,
